@@ -14,6 +14,8 @@ abstract interpreter see one spelling of constructs that mean the same:
   reversed(range(a, b))                 ->  range(b - 1, a - 1, -1)
   in a test position:  B if A else False -> A and B ;  True if A else B -> A or B ;  False if A else B -> not A and B ; A if A2 else True ...
   a, b = x, y                           ->  a = x ; b = y            (when y does not mention a)
+  return A if C else B                  ->  if C: return A ; return B   (a returned conditional becomes early returns, recursively)
+  v = A if C else None                  ->  if C: v = A  else: v = None   (a conditional with a None arm is kept / made a statement)
   f(x, p2=y)                            ->  f(x, y)                  (second pass, needs all signatures: keywords of calls to functions
                                                                       defined in the tree with one signature become positional)
 
@@ -122,9 +124,16 @@ class Normalizer(ast.NodeTransformer):
                 return ast.copy_location(ast.If(test=t, body=node.orelse, orelse=node.body), node)
         return node
 
+    @staticmethod
+    def _is_none(e) -> bool:
+        return isinstance(e, ast.Constant) and e.value is None
+
     def _to_ifexp(self, node):
         if len(node.body) == 1 and len(node.orelse) == 1:
             a, b = node.body[0], node.orelse[0]
+            # a conditional with a None arm selects between kinds of value: it stays a statement (the interpreters fork on it)
+            if isinstance(a, ast.Assign) and isinstance(b, ast.Assign) and (self._is_none(a.value) or self._is_none(b.value)):
+                return node
             if (
                 isinstance(a, ast.Assign) and isinstance(b, ast.Assign) and len(a.targets) == 1 and len(b.targets) == 1
                 and isinstance(a.targets[0], ast.Name) and isinstance(b.targets[0], ast.Name) and a.targets[0].id == b.targets[0].id
@@ -135,6 +144,14 @@ class Normalizer(ast.NodeTransformer):
 
     def visit_Call(self, node):
         self.generic_visit(node)
+        if any(isinstance(a, ast.Starred) and isinstance(a.value, (ast.Tuple, ast.List)) for a in node.args):
+            args = []
+            for a in node.args:
+                if isinstance(a, ast.Starred) and isinstance(a.value, (ast.Tuple, ast.List)):
+                    args.extend(a.value.elts)
+                else:
+                    args.append(a)
+            node.args = args
         if isinstance(node.func, ast.Name) and node.func.id == "reversed" and len(node.args) == 1 and isinstance(node.args[0], ast.Call) and isinstance(node.args[0].func, ast.Name) and node.args[0].func.id == "range" and len(node.args[0].args) in (1, 2) and not node.args[0].keywords:
             r = node.args[0]
             a, b = (ast.Constant(value=0), r.args[0]) if len(r.args) == 1 else (r.args[0], r.args[1])
@@ -249,6 +266,47 @@ class Normalizer(ast.NodeTransformer):
                     st = _R().visit(st)
             merged.append(st)
         stmts = merged
+        # return A if C else B  ->  if C: return A ; return B
+        def split_ret(st):
+            if isinstance(st, ast.Return) and isinstance(st.value, ast.IfExp):
+                v = st.value
+                a = split_ret(ast.copy_location(ast.Return(value=v.body), st))
+                b = split_ret(ast.copy_location(ast.Return(value=v.orelse), st))
+                return [ast.copy_location(ast.If(test=v.test, body=a, orelse=[]), st)] + b
+            return [st]
+
+        stmts = [y for st in stmts for y in split_ret(st)]
+
+        def split_none(st):
+            if isinstance(st, ast.Assign) and len(st.targets) == 1 and isinstance(st.targets[0], ast.Name) and isinstance(st.value, ast.IfExp) and (self._is_none(st.value.body) or self._is_none(st.value.orelse) or isinstance(st.value.body, ast.IfExp) or isinstance(st.value.orelse, ast.IfExp)):
+                v = st.value
+                has_none = any(self._is_none(n) for n in (v.body, v.orelse)) or any(isinstance(x, ast.IfExp) and any(self._is_none(y) for y in ast.walk(x)) for x in (v.body, v.orelse))
+                if not has_none:
+                    return [st]
+                import copy as _c
+
+                a = split_none(ast.copy_location(ast.Assign(targets=[_c.deepcopy(st.targets[0])], value=v.body), st))
+                b = split_none(ast.copy_location(ast.Assign(targets=[_c.deepcopy(st.targets[0])], value=v.orelse), st))
+                return [ast.copy_location(ast.If(test=v.test, body=a, orelse=b), st)]
+            return [st]
+
+        stmts = [y for st in stmts for y in split_none(st)]
+
+        # x = E or 0   ->   x = E ; if not x: x = 0        (the default-zero idiom, E evaluated once)
+        def split_or0(st):
+            if (
+                isinstance(st, ast.Assign) and len(st.targets) == 1 and isinstance(st.targets[0], ast.Name) and isinstance(st.value, ast.BoolOp)
+                and isinstance(st.value.op, ast.Or) and len(st.value.values) == 2 and isinstance(st.value.values[1], ast.Constant)
+                and st.value.values[1].value in (0, 0.0) and not isinstance(st.value.values[1].value, bool)
+            ):
+                t = st.targets[0]
+                first = ast.copy_location(ast.Assign(targets=[t], value=st.value.values[0]), st)
+                name_l = ast.copy_location(ast.Name(id=t.id, ctx=ast.Load()), st)
+                fix = ast.copy_location(ast.If(test=ast.copy_location(ast.UnaryOp(op=ast.Not(), operand=name_l), st), body=[ast.copy_location(ast.Assign(targets=[ast.copy_location(ast.Name(id=t.id, ctx=ast.Store()), st)], value=st.value.values[1]), st)], orelse=[]), st)
+                return [first, fix]
+            return [st]
+
+        stmts = [y for st in stmts for y in split_or0(st)]
         looped = []
         for st in stmts:
             new = self._loopify_return(st) if isinstance(st, ast.Return) and st.value is not None else None
